@@ -6,7 +6,8 @@ so that symbolic scalars can be stored into the result.
 """
 import numpy as _np
 
-from .arr import SArr, is_sym
+from .arr import SArr, is_sym, HANDLED
+from .core import SR, SB
 
 
 class NPProxy:
@@ -46,6 +47,17 @@ class NPProxy:
 
     def asarray(self, a, dtype=None, **k):
         return self.array(a, dtype=dtype)
+
+    def where(self, c, *ab):
+        """np.where does not dispatch on a bare symbolic scalar condition (it would call bool() and fork)"""
+        if isinstance(c, (SB, SR)) or any(isinstance(x, (SR, SB)) for x in ab):
+            return HANDLED[_np.where](c, *ab)
+        return _np.where(c, *ab)
+
+    def clip(self, a, a_min=None, a_max=None, **k):
+        if isinstance(a, SR):
+            return a.clip(a_min, a_max)
+        return _np.clip(a, a_min, a_max, **k)
 
     def eye(self, n, *a, **k):
         return self._o(_np.eye(n, *a))
